@@ -70,6 +70,10 @@ Section Ws.
   Definition ws_init (keys : list bytes) : wsend := mkWS [] [] 0 keys.
   Definition ws_queue (st : wsend) (m : Msg) : wsend := mkWS (ws_q st ++ [m]) (ws_buf st) (ws_off st) (ws_keys st).
 
+  (* HasBytesToOutput() after the handshake: _outputBytesWritten < _outputBuf.GetNumBytes() || queue.HasItems() *)
+  Definition ws_has_bytes (st : wsend) : bool :=
+    (ws_off st <? blen (ws_buf st)) || match ws_q st with [] => false | _ => true end.
+
   Fixpoint ws_out (client : bool) (fuel : nat) (st : wsend) (maxb : N) (scr : list N) (acc : bytes) {struct fuel}
     : wsend * bytes :=
     match fuel with
@@ -243,7 +247,7 @@ Section Ws.
 End Ws.
 
 Arguments mkWS {Msg}. Arguments ws_q {Msg}. Arguments ws_buf {Msg}. Arguments ws_off {Msg}. Arguments ws_keys {Msg}.
-Arguments ws_init {Msg}. Arguments ws_queue {Msg}.
+Arguments ws_init {Msg}. Arguments ws_queue {Msg}. Arguments ws_has_bytes {Msg}.
 Arguments mkWR {SR}. Arguments wr_hdr {SR}. Arguments wr_hsize {SR}. Arguments wr_pay {SR}. Arguments wr_first {SR}.
 Arguments wr_mask {SR}. Arguments wr_op {SR}. Arguments wr_closed {SR}. Arguments wr_err {SR}. Arguments wr_slave {SR}.
 Arguments wr_init {SR}.
